@@ -42,6 +42,21 @@ PROPS = {
         technique="Lean 4 proof (mutual structural induction over nested document trees: code mirror = specification) + differential correspondence through Builder.FromBytes/Get",
         explanation="reduce_eq_resolve for all WF documents; correspondence on generated documents x assignments",
     ),
+    "C10": dict(
+        title="gconfig: Get is a pure function of (config, key, type)",
+        lean_modules=["Generated.GConfigKey", "Properties.C10"],
+        extract=[dict(name="extract-gconfig", cmd=["go", "run", "-C", "harness", "./cmd/extract-gconfig"])],
+        harness=[dict(bin="h-gconfig"), dict(bin="h-gconfig", out="h-gconfig-race", race=True, args=["-scale", "0.15"])],
+        trusted=[GO_TRUST % "h-gconfig", "cmd/extract-gconfig (reads how getFromCache builds its memo key)",
+                 "xsync.MapOf.Compute is atomic per key (every concurrent mix is then equivalent to a sequential history, to which the theorem applies)",
+                 "the YAML conversion into T is a pure function of (config, key, T) and yields values of dynamic type T (hypothesis ConvTyped)"],
+        assumptions=["result types as listed in the quantifier (a T whose conversion panics INSIDE the fill callback, e.g. the interface type error, leaves an xsync bucket locked; such types are outside the quantifier and recorded in DESIGN.md)",
+                     "callers do not mutate returned slices/maps"],
+        level_text="Machine-checked Lean 4 theorems over a model of getFromCache: for ANY memo-key function injective in (key, type), the outcome of a request after any request history equals its outcome on a fresh config (get_history_independent, by the invariant that every memo entry was produced by a request with exactly that memo key), no request panics, errors are not memoized, other requests are unaffected. The memo-key construction in config.go is re-read on every run by an extractor and the regenerated fact must be the injective pair (obligation code_memo_key_is_pair; the pinned concatenation is proved non-injective with a panicking witness). Tied to /repo by request histories incl. 88 colliding concatenation pairs and 16-goroutine mixes (also under the race detector), each result compared with a fresh Config.",
+        level_note="Trusted: Lean kernel + standard axioms; per-key atomicity of xsync.MapOf.Compute (concurrent clause reduces to the sequential theorem); the extractor; yaml.v3 conversion as a pure function (not modelled).",
+        technique="Lean 4 proof (history independence from injectivity of the memo key, induction over request histories) + regenerated fact about the key construction + differential histories against fresh configs",
+        explanation="history independence for all histories; tie A on the memo key; differential histories",
+    ),
     "C11": dict(
         title="set: BitSet is exact bit-set algebra and reports changes truthfully",
         lean_modules=["Properties.C11"],
